@@ -1096,7 +1096,7 @@ func (mc *machine) invariant(rt *rapid.T) {
 // the secondary indexes of the restored table contents corrupted (memory.TableData.copy
 // shares the index rows with the working copy, which rewrites them in place); later
 // referential actions, which find children through these indexes, then miss rows.
-const findingSharedIdx = "C18-shared-index-rows"
+const findingSharedIdx = "C18-stale-index-after-failed-stmt"
 
 // findingFKIndex: ALTER TABLE ... ADD FOREIGN KEY on a populated child table without an index
 // on the child columns registers the implicit index but never fills it with the existing
